@@ -302,6 +302,9 @@ func (p *Program) parseSpecs(pkg *packages.Package) {
 					if srt == "DArr" {
 						srt = "(Array Int Data)"
 					}
+					if srt == "RArr" {
+						srt = "(Array Int Range)"
+					}
 					m.Sorts = append(m.Sorts, srt)
 				}
 				p.Macros[m.Name] = m
